@@ -22,6 +22,7 @@ PID = "C17"
 TECHNIQUE = ("differential testing of generated interleavings of declarations and operations, each schedule executed "
              "in its own fresh process (forked from an import-only zygote, cross-checked against real new "
              "interpreters), compared pairwise and against the dimension/scale model at every evaluation")
+LEVEL_TEXT = ("Generated programs, two schedules each, every schedule in a fresh process (forked from an import-only process; 1 in 25 also in a real new interpreter, outputs must be identical); every evaluation is compared with the model's answer for the declarations made so far and final results pairwise. Exploration over histories.")
 RULE = ("program = declarations (a generated universe, or new base/derived types and units on top of the predefined "
         "catalogue, e.g. Jerk = Acceleration/Duration) + 2-6 operations (u*v, u/v, u**n on units or quantities, both "
         "orders); two schedules per program: random dependency-respecting orders of the declarations with the "
